@@ -68,6 +68,10 @@ func c19Attempt(kind, scope string, ck constKind) string {
 		a = `for K = K:K + 3 {println("body", K)}`
 	case "fresh-loop-constant":
 		a = `for FRESHX = 3 {println("fresh", FRESHX)}; del(FRESHX)`
+	case "fresh-param-constant":
+		a = `println("r", catch(func(FRESHP) {println("fresh", FRESHP); ++FRESHP; println("fresh", FRESHP); FRESHP}(3)).err, ` +
+			`catch(func(FRESHQ, n) {println("fresh", FRESHQ); for i = n {FRESHQ = FRESHQ + 1}; println("fresh", FRESHQ)}(3, 2)).err, ` +
+			`catch(func(FRESHR) {println("fresh", FRESHR); FRESHR--; println("fresh", FRESHR)}(3)).err)`
 	case "del-rebind":
 		return "del(K); K = " + ck.lit
 	}
@@ -78,6 +82,30 @@ func c19Attempt(kind, scope string, ck constKind) string {
 		return "for 1 {" + a + "}"
 	}
 	return a
+}
+
+// c19ClosureInputs: the constant is bound inside a function and only reachable through closures that escaped; every
+// attempt calls one of them from the top level, from a function or from a loop. The probes have the same shape as for
+// a global constant (value, then "seen from a function").
+func c19ClosureInputs(h [][2]string, ck constKind) []string {
+	idx, del := "K[0] = 99", "del(K[0])"
+	if strings.HasPrefix(ck.name, "map") {
+		idx, del = `K["a"] = 99`, "del(K.a)"
+	}
+	mk := "mk = func() {K = " + ck.lit + `; {"get": () => K, "assign": () => {K = ` + ck.other + `}, "define": () => {K := ` + ck.other + `; K}, "incr": () => {K++}, "predecr": () => {--K}, ` +
+		`"index-assign": () => {` + idx + `}, "del-entry": () => {` + del + `}, "nested-assign": () => {func() {K = ` + ck.other + `}()}, "equal-reassign": () => {K = ` + ck.lit + `}}}`
+	in := []string{mk + "; c = mk()", "println(c.get())"}
+	for _, op := range h {
+		call := `c["` + op[0] + `"]()`
+		switch op[1] {
+		case "function":
+			call = "func() {" + call + "}()"
+		case "loop":
+			call = "for 1 {" + call + "}"
+		}
+		in = append(in, call, "println(c.get())", `println(func() {c.get()}() == c.get())`)
+	}
+	return in
 }
 
 func c19Inputs(h [][2]string, ck constKind) []string {
@@ -96,13 +124,13 @@ func c19Judge(in []string, on, off []inObs) string {
 		return "the constant could not be printed after binding"
 	}
 	for i := 2; i < len(in); i++ {
-		if in[i] == "println(K)" {
+		if in[i] == "println(K)" || in[i] == "println(c.get())" {
 			if on[i].Out != base || off[i].Out != base {
 				return fmt.Sprintf("after %q the constant prints %q (registers off: %q), was %q", in[i-1], on[i].Out, off[i].Out, base)
 			}
 			continue
 		}
-		if strings.HasPrefix(in[i], "println(func() {K}()") {
+		if strings.HasPrefix(in[i], "println(func() {K}()") || strings.HasPrefix(in[i], "println(func() {c.get()}()") {
 			if on[i].Out != "true\n" || off[i].Out != "true\n" {
 				return fmt.Sprintf("after %q the constant seen from a function differs: %q / %q", in[i-2], on[i].Out, off[i].Out)
 			}
@@ -134,17 +162,17 @@ func c19Judge(in []string, on, off []inObs) string {
 }
 
 func checkC19(c *Ctx) {
-	cfg := func(maxOps int, wbc, rs, emit bool) string {
+	cfg := func(maxOps int, wbc, rs, wcs, emit bool) string {
 		b := func(x bool) string {
 			if x {
 				return "TRUE"
 			}
 			return "FALSE"
 		}
-		return fmt.Sprintf("CONSTANTS\n MaxOps = %d\n WriteBeforeCheck = %s\n RegisterShadows = %s\n EmitOn = %s\nINIT Init\nNEXT Next\nINVARIANT ConstantsStable\n", maxOps, b(wbc), b(rs), b(emit))
+		return fmt.Sprintf("CONSTANTS\n MaxOps = %d\n WriteBeforeCheck = %s\n RegisterShadows = %s\n CheckWalksCallStack = %s\n EmitOn = %s\nINIT Init\nNEXT Next\nINVARIANT ConstantsStable\n", maxOps, b(wbc), b(rs), b(wcs), b(emit))
 	}
-	for _, dev := range [][2]bool{{true, false}, {false, true}} {
-		r, err := c.TLC(TLCOpt{Spec: "Constants", Cfg: cfg(2, dev[0], dev[1], false), Workers: 2, AllowError: true})
+	for _, dev := range [][3]bool{{true, false, false}, {false, true, false}, {false, false, true}} {
+		r, err := c.TLC(TLCOpt{Spec: "Constants", Cfg: cfg(2, dev[0], dev[1], dev[2], false), Workers: 2, AllowError: true})
 		if err != nil {
 			c.Infra(err)
 			return
@@ -154,8 +182,8 @@ func checkC19(c *Ctx) {
 			return
 		}
 	}
-	c.Cov("design_counterexamples", "WriteBeforeCheck=TRUE and RegisterShadows=TRUE each violate ConstantsStable")
-	r, err := c.TLC(TLCOpt{Spec: "Constants", Cfg: cfg(c.Pick(2, 3), false, false, true), Workers: 1})
+	c.Cov("design_counterexamples", "WriteBeforeCheck=TRUE, RegisterShadows=TRUE and CheckWalksCallStack=TRUE each violate ConstantsStable")
+	r, err := c.TLC(TLCOpt{Spec: "Constants", Cfg: cfg(c.Pick(2, 3), false, false, false, true), Workers: 1})
 	if err != nil {
 		c.Infra(err)
 		return
@@ -165,13 +193,14 @@ func checkC19(c *Ctx) {
 	errFlags := map[string][]bool{} // history key + kind -> error flags of attempts (small vs large comparison)
 	err = ReadLines(r.Emitted, func(line []byte) error {
 		var g struct {
-			H [][2]string `json:"h"`
+			H    [][2]string `json:"h"`
+			Home string      `json:"home"`
 		}
 		if err := json.Unmarshal(line, &g); err != nil {
 			return err
 		}
 		n++
-		hk := fmt.Sprint(g.H)
+		hk := g.Home + fmt.Sprint(g.H)
 		if seen[hk] {
 			return nil
 		}
@@ -181,6 +210,9 @@ func checkC19(c *Ctx) {
 		}
 		for _, ck := range constKinds {
 			in := c19Inputs(g.H, ck)
+			if g.Home == "closure" {
+				in = c19ClosureInputs(g.H, ck)
+			}
 			on, _ := runHistory(in, RunOpt{})
 			off, _ := runHistory(in, RunOpt{NoReg: true})
 			key := ck.name + "\n" + strings.Join(in, "\n")
@@ -207,7 +239,7 @@ func checkC19(c *Ctx) {
 			a, b := errFlags[hk+"|"+ck.name], errFlags[hk+"|"+ck.large]
 			if fmt.Sprint(a) != fmt.Sprint(b) {
 				c.Fail("constant-outcome-depends-on-size:"+ck.name, fmt.Sprintf("attempts %v: error outcomes %v for %s but %v for %s", g.H, a, ck.name, b, ck.large),
-					map[string]any{"check": "size", "inputs": c19Inputs(g.H, constKinds[indexOfKind(ck.large)])})
+					map[string]any{"check": "size", "home": g.Home, "inputs": c19Inputs(g.H, constKinds[indexOfKind(ck.large)])})
 			}
 		}
 		return nil
